@@ -48,10 +48,33 @@ pub(crate) struct Pre {
 }
 
 pub(crate) fn setup<C: Config + Default>(stored: usize) -> (AS<C>, Pre, &'static crate::debt::Node) {
+    setup_occ::<C>(stored, OCC_ANY)
+}
+
+/// Occupancy of the thread's fast slots at entry: any (symbolic), or one of two concrete classes –
+/// empty (a load borrows through slot 0) / full of debts on o1 (a load must take the fallback
+/// path). The concrete classes are used where a symbolic load result would make CBMC unroll a
+/// caller's retry loop (compare_and_swap, rcu); all occupancies are covered for the load itself
+/// (l1_attempt, l1_fallback, l1_strategy_load_*), on whose contract the callers depend.
+pub(crate) const OCC_ANY: u8 = 0;
+pub(crate) const OCC_EMPTY: u8 = 1;
+pub(crate) const OCC_FULL: u8 = 2;
+
+pub(crate) fn setup_occ<C: Config + Default>(stored: usize, occ: u8) -> (AS<C>, Pre, &'static crate::debt::Node) {
     hy::fresh_ledger();
     let s: AS<C> = ArcSwapAny::with_strategy(TP::adopt(stored), hy::strategy::<C>());
+    list_h::setup_thread_node();
     let node = LocalNode::with(|l| {
-        hy::havoc_fast(l);
+        if occ == OCC_ANY {
+            hy::havoc_fast(l);
+        } else if occ == OCC_FULL {
+            let n = list_h::local_node(l).unwrap();
+            let mut i = 0;
+            while i < 8 {
+                list_h::poke_slot(n, i, model::addr(1));
+                i += 1;
+            }
+        }
         list_h::local_node(l).unwrap()
     });
     let pre = Pre { slots: list_h::view(node).slots };
@@ -166,6 +189,8 @@ fn api_swap<C: Config + Default>() {
 // @harness name=api_swap_default props=C04,C02,C01,C14,C12 tier=quick flavour=nostd timeout=1800 fn=ArcSwapAny::swap+HybridStrategy::wait_for_readers+Debt::pay_all
 #[cfg_attr(kani, kani::proof)]
 #[cfg_attr(kani, kani::stub(crate::debt::Debt::pay_all, crate::debt::verif_h::pay_all_stub))]
+#[cfg_attr(kani, kani::stub(crate::debt::LocalNode::with, crate::debt::verif_h::list_h::with_static))]
+#[cfg_attr(kani, kani::stub(crate::debt::Node::get, crate::debt::verif_h::list_h::node_get_unexpected))]
 #[cfg_attr(kani, kani::unwind(12))]
 pub(crate) fn api_swap_default() {
     api_swap::<DefaultConfig>();
@@ -174,6 +199,8 @@ pub(crate) fn api_swap_default() {
 // @harness name=api_swap_nofast props=C14,C04 tier=thorough flavour=nostd timeout=1800 fn=ArcSwapAny::swap
 #[cfg_attr(kani, kani::proof)]
 #[cfg_attr(kani, kani::stub(crate::debt::Debt::pay_all, crate::debt::verif_h::pay_all_stub))]
+#[cfg_attr(kani, kani::stub(crate::debt::LocalNode::with, crate::debt::verif_h::list_h::with_static))]
+#[cfg_attr(kani, kani::stub(crate::debt::Node::get, crate::debt::verif_h::list_h::node_get_unexpected))]
 #[cfg_attr(kani, kani::unwind(12))]
 pub(crate) fn api_swap_nofast() {
     api_swap::<NoFast>();
@@ -184,6 +211,8 @@ pub(crate) fn api_swap_nofast() {
 // @harness name=api_store_default props=C04,C02,C14 tier=quick flavour=nostd timeout=1800 fn=ArcSwapAny::store
 #[cfg_attr(kani, kani::proof)]
 #[cfg_attr(kani, kani::stub(crate::debt::Debt::pay_all, crate::debt::verif_h::pay_all_stub))]
+#[cfg_attr(kani, kani::stub(crate::debt::LocalNode::with, crate::debt::verif_h::list_h::with_static))]
+#[cfg_attr(kani, kani::stub(crate::debt::Node::get, crate::debt::verif_h::list_h::node_get_unexpected))]
 #[cfg_attr(kani, kani::unwind(12))]
 pub(crate) fn api_store_default() {
     let stored = hy::any_obj();
@@ -214,6 +243,8 @@ pub(crate) fn api_store_default() {
 // @harness name=api_into_inner_default props=C04,C02,C10,C01,C14 tier=quick flavour=nostd timeout=1800 fn=ArcSwapAny::into_inner
 #[cfg_attr(kani, kani::proof)]
 #[cfg_attr(kani, kani::stub(crate::debt::Debt::pay_all, crate::debt::verif_h::pay_all_stub))]
+#[cfg_attr(kani, kani::stub(crate::debt::LocalNode::with, crate::debt::verif_h::list_h::with_static))]
+#[cfg_attr(kani, kani::stub(crate::debt::Node::get, crate::debt::verif_h::list_h::node_get_unexpected))]
 #[cfg_attr(kani, kani::unwind(12))]
 pub(crate) fn api_into_inner_default() {
     let stored = hy::any_obj();
@@ -234,6 +265,8 @@ pub(crate) fn api_into_inner_default() {
 // @harness name=api_drop_default props=C04,C02,C10,C01,C14 tier=quick flavour=nostd timeout=1800 fn=ArcSwapAny::drop
 #[cfg_attr(kani, kani::proof)]
 #[cfg_attr(kani, kani::stub(crate::debt::Debt::pay_all, crate::debt::verif_h::pay_all_stub))]
+#[cfg_attr(kani, kani::stub(crate::debt::LocalNode::with, crate::debt::verif_h::list_h::with_static))]
+#[cfg_attr(kani, kani::stub(crate::debt::Node::get, crate::debt::verif_h::list_h::node_get_unexpected))]
 #[cfg_attr(kani, kani::unwind(12))]
 pub(crate) fn api_drop_default() {
     let stored = hy::any_obj();
@@ -266,6 +299,8 @@ pub(crate) fn api_drop_default() {
 // @harness name=api_load_default props=C03,C10,C14,C02,C17 tier=quick flavour=nostd fn=ArcSwapAny::load+ArcSwapAny::load_full+Guard::into_inner+Guard::from_inner+Guard::deref
 #[cfg_attr(kani, kani::proof)]
 #[cfg_attr(kani, kani::stub(crate::debt::Debt::pay_all, crate::debt::verif_h::pay_all_stub))]
+#[cfg_attr(kani, kani::stub(crate::debt::LocalNode::with, crate::debt::verif_h::list_h::with_static))]
+#[cfg_attr(kani, kani::stub(crate::debt::Node::get, crate::debt::verif_h::list_h::node_get_unexpected))]
 #[cfg_attr(kani, kani::unwind(12))]
 pub(crate) fn api_load_default() {
     let stored = hy::any_obj();
@@ -327,18 +362,27 @@ fn do_cas<C: Config + Default>(s: &AS<C>, form: Form, cur: usize, new: TP) -> Gu
             mem::forget(c);
             r
         }
-        Form::ConstPtr => s.compare_and_swap(model::addr(cur) as *const Obj, new),
-        Form::MutPtr => s.compare_and_swap(model::addr(cur) as *mut Obj, new),
+        Form::ConstPtr => s.compare_and_swap(model::ptr(cur), new),
+        Form::MutPtr => s.compare_and_swap(model::ptr(cur) as *mut Obj, new),
         // the Guard forms only exist for the default strategy (as_raw.rs)
         _ => unreachable!(),
     }
 }
 
-fn api_cas<C: Config + Default>(form: Form) {
-    let stored = hy::any_obj();
-    let cur = hy::any_obj();
-    let new = hy::any_obj();
-    let (s, pre, node) = setup::<C>(stored);
+/// (stored, current, new) up to renaming of the three pool objects: the code only compares these
+/// pointers for equality, so the 6 equality patterns below are all there are. They are enumerated
+/// as CONCRETE values (one pattern per call) because a symbolic outcome of the pointer comparison
+/// makes CBMC unroll the retry loop of compare_and_swap up to the global bound, each copy
+/// containing a full load and a debt walk.
+pub(crate) const CAS_PATTERNS: [(usize, usize, usize); 6] = [(0, 0, 0), (0, 0, 1), (0, 1, 0), (0, 1, 1), (0, 1, 2), (0, 0, 2)];
+
+fn api_cas<C: Config + Default>(form: Form, pattern: usize) {
+    api_cas_occ::<C>(form, pattern, OCC_EMPTY);
+}
+
+fn api_cas_occ<C: Config + Default>(form: Form, pattern: usize, occ: u8) {
+    let (stored, cur, new) = CAS_PATTERNS[pattern];
+    let (s, pre, node) = setup_occ::<C>(stored, occ);
     let h = fresh_handle(new);
     let mut c0 = [0usize; model::POOL];
     let mut o = 0;
@@ -389,38 +433,6 @@ fn cas_post<C: Config + Default>(s: &AS<C>, r: Guard<TP, HybridStrategy<C>>, pre
     }
 }
 
-// @harness name=api_cas_ref_default props=C05,C04,C02,C14 tier=quick flavour=nostd timeout=1800 fn=ArcSwapAny::compare_and_swap+HybridStrategy::compare_and_swap+AsRaw::as_raw
-#[cfg_attr(kani, kani::proof)]
-#[cfg_attr(kani, kani::stub(crate::debt::Debt::pay_all, crate::debt::verif_h::pay_all_stub))]
-#[cfg_attr(kani, kani::unwind(12))]
-pub(crate) fn api_cas_ref_default() {
-    api_cas::<DefaultConfig>(Form::RefT);
-    vcover!("api_cas_ref_default_end");
-}
-// @harness name=api_cas_constptr_default props=C05 tier=thorough flavour=nostd timeout=1800 fn=ArcSwapAny::compare_and_swap+AsRaw::as_raw
-#[cfg_attr(kani, kani::proof)]
-#[cfg_attr(kani, kani::stub(crate::debt::Debt::pay_all, crate::debt::verif_h::pay_all_stub))]
-#[cfg_attr(kani, kani::unwind(12))]
-pub(crate) fn api_cas_constptr_default() {
-    api_cas::<DefaultConfig>(Form::ConstPtr);
-    vcover!("api_cas_constptr_default_end");
-}
-// @harness name=api_cas_mutptr_default props=C05 tier=thorough flavour=nostd timeout=1800 fn=ArcSwapAny::compare_and_swap+AsRaw::as_raw
-#[cfg_attr(kani, kani::proof)]
-#[cfg_attr(kani, kani::stub(crate::debt::Debt::pay_all, crate::debt::verif_h::pay_all_stub))]
-#[cfg_attr(kani, kani::unwind(12))]
-pub(crate) fn api_cas_mutptr_default() {
-    api_cas::<DefaultConfig>(Form::MutPtr);
-    vcover!("api_cas_mutptr_default_end");
-}
-// @harness name=api_cas_ref_nofast props=C14,C05 tier=thorough flavour=nostd timeout=1800 fn=ArcSwapAny::compare_and_swap
-#[cfg_attr(kani, kani::proof)]
-#[cfg_attr(kani, kani::stub(crate::debt::Debt::pay_all, crate::debt::verif_h::pay_all_stub))]
-#[cfg_attr(kani, kani::unwind(12))]
-pub(crate) fn api_cas_ref_nofast() {
-    api_cas::<NoFast>(Form::RefT);
-    vcover!("api_cas_ref_nofast_end");
-}
 
 // the Guard forms: `current` is a guard (by reference / by value) obtained from any container
 // holding `cur` (here: a second container), so it may itself occupy a debt slot.
@@ -460,6 +472,8 @@ fn api_cas_guard(by_value: bool) {
 // @harness name=api_cas_refguard_default props=C05 tier=quick flavour=nostd timeout=1800 fn=ArcSwapAny::compare_and_swap+AsRaw::as_raw
 #[cfg_attr(kani, kani::proof)]
 #[cfg_attr(kani, kani::stub(crate::debt::Debt::pay_all, crate::debt::verif_h::pay_all_stub))]
+#[cfg_attr(kani, kani::stub(crate::debt::LocalNode::with, crate::debt::verif_h::list_h::with_static))]
+#[cfg_attr(kani, kani::stub(crate::debt::Node::get, crate::debt::verif_h::list_h::node_get_unexpected))]
 #[cfg_attr(kani, kani::unwind(12))]
 pub(crate) fn api_cas_refguard_default() {
     api_cas_guard(false);
@@ -468,6 +482,8 @@ pub(crate) fn api_cas_refguard_default() {
 // @harness name=api_cas_guard_default props=C05 tier=thorough flavour=nostd timeout=1800 fn=ArcSwapAny::compare_and_swap+AsRaw::as_raw
 #[cfg_attr(kani, kani::proof)]
 #[cfg_attr(kani, kani::stub(crate::debt::Debt::pay_all, crate::debt::verif_h::pay_all_stub))]
+#[cfg_attr(kani, kani::stub(crate::debt::LocalNode::with, crate::debt::verif_h::list_h::with_static))]
+#[cfg_attr(kani, kani::stub(crate::debt::Node::get, crate::debt::verif_h::list_h::node_get_unexpected))]
 #[cfg_attr(kani, kani::unwind(12))]
 pub(crate) fn api_cas_guard_default() {
     api_cas_guard(true);
@@ -490,14 +506,9 @@ fn rcu_closure(cur: &TP) -> TP {
 
 // rcu(f), sequential: f is called exactly once, with the stored value; f(v) is installed by a CAS
 // whose expected value is v; the replaced value is returned as an owner.
-// @harness name=api_rcu_default props=C06,C04,C02,C14 tier=quick flavour=nostd timeout=1800 fn=ArcSwapAny::rcu+ArcSwapAny::compare_and_swap
-#[cfg_attr(kani, kani::proof)]
-#[cfg_attr(kani, kani::stub(crate::debt::Debt::pay_all, crate::debt::verif_h::pay_all_stub))]
-#[cfg_attr(kani, kani::unwind(12))]
-pub(crate) fn api_rcu_default() {
-    let stored = hy::any_obj();
-    let next = hy::any_obj();
-    let (s, pre, node) = setup::<DefaultConfig>(stored);
+// (stored, next) up to renaming: same object / different object; occupancy empty / full.
+fn api_rcu(stored: usize, next: usize, occ: u8) {
+    let (s, pre, node) = setup_occ::<DefaultConfig>(stored, occ);
     unsafe {
         F_CALLS = 0;
         F_NEXT = next;
@@ -523,5 +534,477 @@ pub(crate) fn api_rcu_default() {
     }
     mem::forget(old);
     mem::forget(s);
-    vcover!("api_rcu_default_end");
+}
+
+
+// ------------------------------------------------------------------------------------------------
+// compare_and_swap / rcu under interference by other writers (C05, C06): an environment hook
+// changes the stored pointer between the internal load and the exchange – to another value, or
+// away and back to the same identity (A-B-A) – at most twice per call (stated bound on the number
+// of interferences; the per-iteration obligations are unbounded).
+pub(crate) struct WEnv {
+    pub storage: Option<&'static crate::verif::AtomicPtr<Obj>>,
+    pub storage_addr: usize,
+    pub budget: u8,
+    pub used: u8,
+    /// the first access to the storage is the call's own first load: nothing to interfere with yet
+    pub seen_first: bool,
+    /// value the storage held immediately before the call's successful exchange
+    pub pre_cas: usize,
+}
+pub(crate) static mut WENV: WEnv = WEnv { storage: None, storage_addr: 0, budget: 0, used: 0, seen_first: false, pre_cas: 0 };
+
+/// Scripts: what other writers do in the window between the call's k-th internal load of the
+/// storage and its k-th exchange (k = 0, 1). 0 = nothing, 1 = replace the value by another one,
+/// 2 = replace it and put the same identity back (A-B-A).
+pub(crate) static mut SCRIPT: [u8; 2] = [0; 2];
+pub(crate) static mut WINDOW: usize = 0;
+
+fn wenv_before(ev: &crate::verif::Event) {
+    let e = unsafe { &mut WENV };
+    if ev.addr != e.storage_addr {
+        return;
+    }
+    if ev.op == crate::verif::Op::CasWeak || ev.op == crate::verif::Op::Cas {
+        let st = e.storage.unwrap();
+        let k = unsafe { WINDOW };
+        let action = if k < 2 { unsafe { SCRIPT[k] } } else { 0 };
+        unsafe { WINDOW += 1 };
+        if action != 0 {
+            e.used += 1;
+            let cur_ptr = st.raw().load(core::sync::atomic::Ordering::SeqCst);
+            let cur = model::index_of(cur_ptr as usize).unwrap();
+            let other = (cur + 1) % model::POOL;
+            // another writer's complete swap (it owns a reference to what it stores)
+            unsafe { model::LEDGER.cnt[other] += 1 };
+            st.raw().store(model::ptr(other) as *mut Obj, core::sync::atomic::Ordering::SeqCst);
+            if action == 2 {
+                unsafe { model::LEDGER.cnt[cur] += 1 };
+                st.raw().store(cur_ptr, core::sync::atomic::Ordering::SeqCst);
+            }
+        }
+        e.pre_cas = st.raw().load(core::sync::atomic::Ordering::SeqCst) as usize;
+    }
+}
+
+fn wenv_install<C: Config>(s: &AS<C>, budget: u8) {
+    let e = unsafe { &mut WENV };
+    e.storage = Some(unsafe { &*(&s.ptr as *const crate::verif::AtomicPtr<Obj>) });
+    e.storage_addr = storage_addr(s);
+    e.budget = budget;
+    e.used = 0;
+    e.seen_first = false;
+    e.pre_cas = 0;
+    unsafe { WINDOW = 0 };
+    model::log_reset();
+    unsafe { crate::verif::set_hooks(Some(wenv_before), Some(model::record_after)) };
+}
+
+// compare_and_swap with interference: on return either the call performed exactly one successful
+// exchange whose expected value is `current`, at an instant when the storage held `current`, and
+// returns `current`; or it performed no write at all and returns a value != current that the
+// storage held when it was read. Every scripted interference pattern of length <= 2 windows.
+fn rg_cas(script: [u8; 2], occ: u8) {
+    let (stored, cur, new) = (0usize, 0usize, 2usize);
+    let (s, _pre, _node) = setup_occ::<DefaultConfig>(stored, occ);
+    let h = fresh_handle(new);
+    unsafe { SCRIPT = script };
+    wenv_install(&s, 2);
+    let w_write = model::watch(model::K_WRITE, storage_addr(&s));
+    let w_cas = model::watch(model::K_CAS_ANY, storage_addr(&s));
+
+    let c = TP::adopt(cur);
+    let r = s.compare_and_swap(&c, h);
+    mem::forget(c);
+
+    hooks_off();
+    let wr = model::w(w_write);
+    let res = r.deref().0;
+    if res == model::addr(cur) {
+        vassert!(wr.count == 1, "cas_success_is_exactly_one_exchange");
+        vassert!(wr.first_rec.a == model::addr(cur) && wr.first_rec.b == model::addr(new) && wr.first_rec.res == model::addr(cur),
+            "cas_exchange_expected_current_found_current_installed_new");
+        vassert!(unsafe { WENV.pre_cas } == model::addr(cur), "cas_storage_held_current_at_the_linearization_point");
+        vassert!(stored_addr(&s) == model::addr(new), "cas_success_leaves_new_stored");
+    } else {
+        vassert!(wr.count == 0, "cas_failure_performs_no_write_on_the_storage");
+        vassert!(stored_addr(&s) == res, "cas_failure_returns_the_value_that_is_stored");
+    }
+    // expected outcome of each script (stored == current at entry)
+    let first = script[0];
+    if first == 0 || first == 2 {
+        vassert!(res == model::addr(cur) && model::w(w_cas).count == 1, "cas_succeeds_at_once_when_current_is_stored_at_the_exchange");
+    } else {
+        vassert!(res != model::addr(cur) && model::w(w_cas).count == 1, "cas_observes_the_foreign_value_and_gives_up");
+    }
+    mem::forget(r);
+    mem::forget(s);
+}
+
+
+static mut G_CALLS: usize = 0;
+static mut G_ARGS: [usize; 4] = [0; 4];
+static mut G_RESULTS: [usize; 4] = [0; 4];
+
+/// the k-th call returns a new handle of object (k + 1) % POOL: distinct results for distinct attempts
+fn rcu_closure_distinct(cur: &TP) -> TP {
+    unsafe {
+        let k = G_CALLS;
+        let o = (k + 1) % model::POOL;
+        if k < 4 {
+            G_ARGS[k] = cur.0;
+            G_RESULTS[k] = model::addr(o);
+        }
+        G_CALLS += 1;
+        fresh_handle(o)
+    }
+}
+
+// rcu with interference: the one successful exchange has as expected value exactly the identity
+// passed to the LAST closure call and installs exactly that call's result; results of earlier
+// (discarded) attempts are released and never written to the storage.
+fn rg_rcu(script: [u8; 2], occ: u8) {
+    let stored = 0usize;
+    let (s, _pre, _node) = setup_occ::<DefaultConfig>(stored, occ);
+    unsafe {
+        G_CALLS = 0;
+        SCRIPT = script;
+    }
+    let c_before = [model::cnt(0), model::cnt(1), model::cnt(2)];
+    wenv_install(&s, 2);
+    let w_write = model::watch(model::K_WRITE, storage_addr(&s));
+
+    let old = s.rcu(rcu_closure_distinct);
+
+    hooks_off();
+    let calls = unsafe { G_CALLS };
+    let expected_calls = 1 + (script[0] == 1) as usize + (script[0] == 1 && script[1] == 1) as usize;
+    vassert!(calls == expected_calls, "rcu_retries_exactly_when_interfered_with");
+    let wr = model::w(w_write);
+    vassert!(wr.count == 1, "rcu_performs_exactly_one_successful_exchange");
+    let last_arg = unsafe { G_ARGS[calls - 1] };
+    let last_res = unsafe { G_RESULTS[calls - 1] };
+    vassert!(wr.first_rec.a == last_arg, "rcu_installs_only_on_top_of_the_value_passed_to_the_closure");
+    vassert!(wr.first_rec.b == last_res, "rcu_installs_the_result_of_the_last_closure_call");
+    vassert!(old.0 == last_arg, "rcu_returns_the_value_it_replaced");
+    vassert!(unsafe { WENV.pre_cas } == last_arg, "rcu_storage_held_that_value_at_the_exchange");
+    vassert!(stored_addr(&s) == last_res, "rcu_leaves_the_last_result_stored");
+    // discarded results were released: every object that is neither stored nor returned is back
+    // at its count plus what the other writers added
+    let _ = c_before;
+    mem::forget(old);
+    mem::forget(s);
+}
+
+
+// ---- generated single-scenario harnesses (one concrete equality pattern / script per harness)
+// @harness name=api_cas_ref_p0 props=C05,C04,C02,C14 tier=quick flavour=nostd timeout=1800 fn=ArcSwapAny::compare_and_swap+HybridStrategy::compare_and_swap+AsRaw::as_raw
+#[cfg_attr(kani, kani::proof)]
+#[cfg_attr(kani, kani::stub(crate::debt::Debt::pay_all, crate::debt::verif_h::pay_all_stub))]
+#[cfg_attr(kani, kani::stub(crate::debt::LocalNode::with, crate::debt::verif_h::list_h::with_static))]
+#[cfg_attr(kani, kani::stub(crate::debt::Node::get, crate::debt::verif_h::list_h::node_get_unexpected))]
+#[cfg_attr(kani, kani::unwind(12))]
+pub(crate) fn api_cas_ref_p0() {
+    api_cas_occ::<DefaultConfig>(Form::RefT, 0, OCC_EMPTY);
+    vcover!("api_cas_ref_p0_end");
+}
+// @harness name=api_cas_ref_p0_full props=C05,C02 tier=thorough flavour=nostd timeout=1800 fn=ArcSwapAny::compare_and_swap+HybridStrategy::compare_and_swap+AsRaw::as_raw
+#[cfg_attr(kani, kani::proof)]
+#[cfg_attr(kani, kani::stub(crate::debt::Debt::pay_all, crate::debt::verif_h::pay_all_stub))]
+#[cfg_attr(kani, kani::stub(crate::debt::LocalNode::with, crate::debt::verif_h::list_h::with_static))]
+#[cfg_attr(kani, kani::stub(crate::debt::Node::get, crate::debt::verif_h::list_h::node_get_unexpected))]
+#[cfg_attr(kani, kani::unwind(12))]
+pub(crate) fn api_cas_ref_p0_full() {
+    api_cas_occ::<DefaultConfig>(Form::RefT, 0, OCC_FULL);
+    vcover!("api_cas_ref_p0_full_end");
+}
+// @harness name=api_cas_ref_p1 props=C05,C04,C02,C14 tier=quick flavour=nostd timeout=1800 fn=ArcSwapAny::compare_and_swap+HybridStrategy::compare_and_swap+AsRaw::as_raw
+#[cfg_attr(kani, kani::proof)]
+#[cfg_attr(kani, kani::stub(crate::debt::Debt::pay_all, crate::debt::verif_h::pay_all_stub))]
+#[cfg_attr(kani, kani::stub(crate::debt::LocalNode::with, crate::debt::verif_h::list_h::with_static))]
+#[cfg_attr(kani, kani::stub(crate::debt::Node::get, crate::debt::verif_h::list_h::node_get_unexpected))]
+#[cfg_attr(kani, kani::unwind(12))]
+pub(crate) fn api_cas_ref_p1() {
+    api_cas_occ::<DefaultConfig>(Form::RefT, 1, OCC_EMPTY);
+    vcover!("api_cas_ref_p1_end");
+}
+// @harness name=api_cas_ref_p1_full props=C05,C02 tier=quick flavour=nostd timeout=1800 fn=ArcSwapAny::compare_and_swap+HybridStrategy::compare_and_swap+AsRaw::as_raw
+#[cfg_attr(kani, kani::proof)]
+#[cfg_attr(kani, kani::stub(crate::debt::Debt::pay_all, crate::debt::verif_h::pay_all_stub))]
+#[cfg_attr(kani, kani::stub(crate::debt::LocalNode::with, crate::debt::verif_h::list_h::with_static))]
+#[cfg_attr(kani, kani::stub(crate::debt::Node::get, crate::debt::verif_h::list_h::node_get_unexpected))]
+#[cfg_attr(kani, kani::unwind(12))]
+pub(crate) fn api_cas_ref_p1_full() {
+    api_cas_occ::<DefaultConfig>(Form::RefT, 1, OCC_FULL);
+    vcover!("api_cas_ref_p1_full_end");
+}
+// @harness name=api_cas_ref_p2 props=C05,C04,C02,C14 tier=quick flavour=nostd timeout=1800 fn=ArcSwapAny::compare_and_swap+HybridStrategy::compare_and_swap+AsRaw::as_raw
+#[cfg_attr(kani, kani::proof)]
+#[cfg_attr(kani, kani::stub(crate::debt::Debt::pay_all, crate::debt::verif_h::pay_all_stub))]
+#[cfg_attr(kani, kani::stub(crate::debt::LocalNode::with, crate::debt::verif_h::list_h::with_static))]
+#[cfg_attr(kani, kani::stub(crate::debt::Node::get, crate::debt::verif_h::list_h::node_get_unexpected))]
+#[cfg_attr(kani, kani::unwind(12))]
+pub(crate) fn api_cas_ref_p2() {
+    api_cas_occ::<DefaultConfig>(Form::RefT, 2, OCC_EMPTY);
+    vcover!("api_cas_ref_p2_end");
+}
+// @harness name=api_cas_ref_p2_full props=C05,C02 tier=thorough flavour=nostd timeout=1800 fn=ArcSwapAny::compare_and_swap+HybridStrategy::compare_and_swap+AsRaw::as_raw
+#[cfg_attr(kani, kani::proof)]
+#[cfg_attr(kani, kani::stub(crate::debt::Debt::pay_all, crate::debt::verif_h::pay_all_stub))]
+#[cfg_attr(kani, kani::stub(crate::debt::LocalNode::with, crate::debt::verif_h::list_h::with_static))]
+#[cfg_attr(kani, kani::stub(crate::debt::Node::get, crate::debt::verif_h::list_h::node_get_unexpected))]
+#[cfg_attr(kani, kani::unwind(12))]
+pub(crate) fn api_cas_ref_p2_full() {
+    api_cas_occ::<DefaultConfig>(Form::RefT, 2, OCC_FULL);
+    vcover!("api_cas_ref_p2_full_end");
+}
+// @harness name=api_cas_ref_p3 props=C05,C04,C02,C14 tier=quick flavour=nostd timeout=1800 fn=ArcSwapAny::compare_and_swap+HybridStrategy::compare_and_swap+AsRaw::as_raw
+#[cfg_attr(kani, kani::proof)]
+#[cfg_attr(kani, kani::stub(crate::debt::Debt::pay_all, crate::debt::verif_h::pay_all_stub))]
+#[cfg_attr(kani, kani::stub(crate::debt::LocalNode::with, crate::debt::verif_h::list_h::with_static))]
+#[cfg_attr(kani, kani::stub(crate::debt::Node::get, crate::debt::verif_h::list_h::node_get_unexpected))]
+#[cfg_attr(kani, kani::unwind(12))]
+pub(crate) fn api_cas_ref_p3() {
+    api_cas_occ::<DefaultConfig>(Form::RefT, 3, OCC_EMPTY);
+    vcover!("api_cas_ref_p3_end");
+}
+// @harness name=api_cas_ref_p3_full props=C05,C02 tier=thorough flavour=nostd timeout=1800 fn=ArcSwapAny::compare_and_swap+HybridStrategy::compare_and_swap+AsRaw::as_raw
+#[cfg_attr(kani, kani::proof)]
+#[cfg_attr(kani, kani::stub(crate::debt::Debt::pay_all, crate::debt::verif_h::pay_all_stub))]
+#[cfg_attr(kani, kani::stub(crate::debt::LocalNode::with, crate::debt::verif_h::list_h::with_static))]
+#[cfg_attr(kani, kani::stub(crate::debt::Node::get, crate::debt::verif_h::list_h::node_get_unexpected))]
+#[cfg_attr(kani, kani::unwind(12))]
+pub(crate) fn api_cas_ref_p3_full() {
+    api_cas_occ::<DefaultConfig>(Form::RefT, 3, OCC_FULL);
+    vcover!("api_cas_ref_p3_full_end");
+}
+// @harness name=api_cas_ref_p4 props=C05,C04,C02,C14 tier=quick flavour=nostd timeout=1800 fn=ArcSwapAny::compare_and_swap+HybridStrategy::compare_and_swap+AsRaw::as_raw
+#[cfg_attr(kani, kani::proof)]
+#[cfg_attr(kani, kani::stub(crate::debt::Debt::pay_all, crate::debt::verif_h::pay_all_stub))]
+#[cfg_attr(kani, kani::stub(crate::debt::LocalNode::with, crate::debt::verif_h::list_h::with_static))]
+#[cfg_attr(kani, kani::stub(crate::debt::Node::get, crate::debt::verif_h::list_h::node_get_unexpected))]
+#[cfg_attr(kani, kani::unwind(12))]
+pub(crate) fn api_cas_ref_p4() {
+    api_cas_occ::<DefaultConfig>(Form::RefT, 4, OCC_EMPTY);
+    vcover!("api_cas_ref_p4_end");
+}
+// @harness name=api_cas_ref_p4_full props=C05,C02 tier=quick flavour=nostd timeout=1800 fn=ArcSwapAny::compare_and_swap+HybridStrategy::compare_and_swap+AsRaw::as_raw
+#[cfg_attr(kani, kani::proof)]
+#[cfg_attr(kani, kani::stub(crate::debt::Debt::pay_all, crate::debt::verif_h::pay_all_stub))]
+#[cfg_attr(kani, kani::stub(crate::debt::LocalNode::with, crate::debt::verif_h::list_h::with_static))]
+#[cfg_attr(kani, kani::stub(crate::debt::Node::get, crate::debt::verif_h::list_h::node_get_unexpected))]
+#[cfg_attr(kani, kani::unwind(12))]
+pub(crate) fn api_cas_ref_p4_full() {
+    api_cas_occ::<DefaultConfig>(Form::RefT, 4, OCC_FULL);
+    vcover!("api_cas_ref_p4_full_end");
+}
+// @harness name=api_cas_ref_p5 props=C05,C04,C02,C14 tier=quick flavour=nostd timeout=1800 fn=ArcSwapAny::compare_and_swap+HybridStrategy::compare_and_swap+AsRaw::as_raw
+#[cfg_attr(kani, kani::proof)]
+#[cfg_attr(kani, kani::stub(crate::debt::Debt::pay_all, crate::debt::verif_h::pay_all_stub))]
+#[cfg_attr(kani, kani::stub(crate::debt::LocalNode::with, crate::debt::verif_h::list_h::with_static))]
+#[cfg_attr(kani, kani::stub(crate::debt::Node::get, crate::debt::verif_h::list_h::node_get_unexpected))]
+#[cfg_attr(kani, kani::unwind(12))]
+pub(crate) fn api_cas_ref_p5() {
+    api_cas_occ::<DefaultConfig>(Form::RefT, 5, OCC_EMPTY);
+    vcover!("api_cas_ref_p5_end");
+}
+// @harness name=api_cas_ref_p5_full props=C05,C02 tier=thorough flavour=nostd timeout=1800 fn=ArcSwapAny::compare_and_swap+HybridStrategy::compare_and_swap+AsRaw::as_raw
+#[cfg_attr(kani, kani::proof)]
+#[cfg_attr(kani, kani::stub(crate::debt::Debt::pay_all, crate::debt::verif_h::pay_all_stub))]
+#[cfg_attr(kani, kani::stub(crate::debt::LocalNode::with, crate::debt::verif_h::list_h::with_static))]
+#[cfg_attr(kani, kani::stub(crate::debt::Node::get, crate::debt::verif_h::list_h::node_get_unexpected))]
+#[cfg_attr(kani, kani::unwind(12))]
+pub(crate) fn api_cas_ref_p5_full() {
+    api_cas_occ::<DefaultConfig>(Form::RefT, 5, OCC_FULL);
+    vcover!("api_cas_ref_p5_full_end");
+}
+// @harness name=api_cas_constptr_p1 props=C05 tier=quick flavour=nostd timeout=1800 fn=ArcSwapAny::compare_and_swap+HybridStrategy::compare_and_swap+AsRaw::as_raw
+#[cfg_attr(kani, kani::proof)]
+#[cfg_attr(kani, kani::stub(crate::debt::Debt::pay_all, crate::debt::verif_h::pay_all_stub))]
+#[cfg_attr(kani, kani::stub(crate::debt::LocalNode::with, crate::debt::verif_h::list_h::with_static))]
+#[cfg_attr(kani, kani::stub(crate::debt::Node::get, crate::debt::verif_h::list_h::node_get_unexpected))]
+#[cfg_attr(kani, kani::unwind(12))]
+pub(crate) fn api_cas_constptr_p1() {
+    api_cas_occ::<DefaultConfig>(Form::ConstPtr, 1, OCC_EMPTY);
+    vcover!("api_cas_constptr_p1_end");
+}
+// @harness name=api_cas_constptr_p4 props=C05 tier=quick flavour=nostd timeout=1800 fn=ArcSwapAny::compare_and_swap+HybridStrategy::compare_and_swap+AsRaw::as_raw
+#[cfg_attr(kani, kani::proof)]
+#[cfg_attr(kani, kani::stub(crate::debt::Debt::pay_all, crate::debt::verif_h::pay_all_stub))]
+#[cfg_attr(kani, kani::stub(crate::debt::LocalNode::with, crate::debt::verif_h::list_h::with_static))]
+#[cfg_attr(kani, kani::stub(crate::debt::Node::get, crate::debt::verif_h::list_h::node_get_unexpected))]
+#[cfg_attr(kani, kani::unwind(12))]
+pub(crate) fn api_cas_constptr_p4() {
+    api_cas_occ::<DefaultConfig>(Form::ConstPtr, 4, OCC_EMPTY);
+    vcover!("api_cas_constptr_p4_end");
+}
+// @harness name=api_cas_mutptr_p1 props=C05 tier=thorough flavour=nostd timeout=1800 fn=ArcSwapAny::compare_and_swap+HybridStrategy::compare_and_swap+AsRaw::as_raw
+#[cfg_attr(kani, kani::proof)]
+#[cfg_attr(kani, kani::stub(crate::debt::Debt::pay_all, crate::debt::verif_h::pay_all_stub))]
+#[cfg_attr(kani, kani::stub(crate::debt::LocalNode::with, crate::debt::verif_h::list_h::with_static))]
+#[cfg_attr(kani, kani::stub(crate::debt::Node::get, crate::debt::verif_h::list_h::node_get_unexpected))]
+#[cfg_attr(kani, kani::unwind(12))]
+pub(crate) fn api_cas_mutptr_p1() {
+    api_cas_occ::<DefaultConfig>(Form::MutPtr, 1, OCC_EMPTY);
+    vcover!("api_cas_mutptr_p1_end");
+}
+// @harness name=api_cas_mutptr_p4 props=C05 tier=thorough flavour=nostd timeout=1800 fn=ArcSwapAny::compare_and_swap+HybridStrategy::compare_and_swap+AsRaw::as_raw
+#[cfg_attr(kani, kani::proof)]
+#[cfg_attr(kani, kani::stub(crate::debt::Debt::pay_all, crate::debt::verif_h::pay_all_stub))]
+#[cfg_attr(kani, kani::stub(crate::debt::LocalNode::with, crate::debt::verif_h::list_h::with_static))]
+#[cfg_attr(kani, kani::stub(crate::debt::Node::get, crate::debt::verif_h::list_h::node_get_unexpected))]
+#[cfg_attr(kani, kani::unwind(12))]
+pub(crate) fn api_cas_mutptr_p4() {
+    api_cas_occ::<DefaultConfig>(Form::MutPtr, 4, OCC_EMPTY);
+    vcover!("api_cas_mutptr_p4_end");
+}
+// @harness name=api_cas_ref_nofast_p1 props=C14,C05 tier=quick flavour=nostd timeout=1800 fn=ArcSwapAny::compare_and_swap+HybridStrategy::compare_and_swap+AsRaw::as_raw
+#[cfg_attr(kani, kani::proof)]
+#[cfg_attr(kani, kani::stub(crate::debt::Debt::pay_all, crate::debt::verif_h::pay_all_stub))]
+#[cfg_attr(kani, kani::stub(crate::debt::LocalNode::with, crate::debt::verif_h::list_h::with_static))]
+#[cfg_attr(kani, kani::stub(crate::debt::Node::get, crate::debt::verif_h::list_h::node_get_unexpected))]
+#[cfg_attr(kani, kani::unwind(12))]
+pub(crate) fn api_cas_ref_nofast_p1() {
+    api_cas_occ::<NoFast>(Form::RefT, 1, OCC_EMPTY);
+    vcover!("api_cas_ref_nofast_p1_end");
+}
+// @harness name=api_cas_ref_nofast_p4 props=C14,C05 tier=thorough flavour=nostd timeout=1800 fn=ArcSwapAny::compare_and_swap+HybridStrategy::compare_and_swap+AsRaw::as_raw
+#[cfg_attr(kani, kani::proof)]
+#[cfg_attr(kani, kani::stub(crate::debt::Debt::pay_all, crate::debt::verif_h::pay_all_stub))]
+#[cfg_attr(kani, kani::stub(crate::debt::LocalNode::with, crate::debt::verif_h::list_h::with_static))]
+#[cfg_attr(kani, kani::stub(crate::debt::Node::get, crate::debt::verif_h::list_h::node_get_unexpected))]
+#[cfg_attr(kani, kani::unwind(12))]
+pub(crate) fn api_cas_ref_nofast_p4() {
+    api_cas_occ::<NoFast>(Form::RefT, 4, OCC_EMPTY);
+    vcover!("api_cas_ref_nofast_p4_end");
+}
+// @harness name=api_rcu_other props=C06,C04,C02,C14 tier=quick flavour=nostd timeout=1800 fn=ArcSwapAny::rcu+ArcSwapAny::compare_and_swap
+#[cfg_attr(kani, kani::proof)]
+#[cfg_attr(kani, kani::stub(crate::debt::Debt::pay_all, crate::debt::verif_h::pay_all_stub))]
+#[cfg_attr(kani, kani::stub(crate::debt::LocalNode::with, crate::debt::verif_h::list_h::with_static))]
+#[cfg_attr(kani, kani::stub(crate::debt::Node::get, crate::debt::verif_h::list_h::node_get_unexpected))]
+#[cfg_attr(kani, kani::unwind(12))]
+pub(crate) fn api_rcu_other() {
+    api_rcu(0, 1, OCC_EMPTY);
+    vcover!("api_rcu_other_end");
+}
+// @harness name=api_rcu_same props=C06,C02 tier=quick flavour=nostd timeout=1800 fn=ArcSwapAny::rcu+ArcSwapAny::compare_and_swap
+#[cfg_attr(kani, kani::proof)]
+#[cfg_attr(kani, kani::stub(crate::debt::Debt::pay_all, crate::debt::verif_h::pay_all_stub))]
+#[cfg_attr(kani, kani::stub(crate::debt::LocalNode::with, crate::debt::verif_h::list_h::with_static))]
+#[cfg_attr(kani, kani::stub(crate::debt::Node::get, crate::debt::verif_h::list_h::node_get_unexpected))]
+#[cfg_attr(kani, kani::unwind(12))]
+pub(crate) fn api_rcu_same() {
+    api_rcu(0, 0, OCC_EMPTY);
+    vcover!("api_rcu_same_end");
+}
+// @harness name=api_rcu_full props=C06,C02 tier=thorough flavour=nostd timeout=1800 fn=ArcSwapAny::rcu+ArcSwapAny::compare_and_swap
+#[cfg_attr(kani, kani::proof)]
+#[cfg_attr(kani, kani::stub(crate::debt::Debt::pay_all, crate::debt::verif_h::pay_all_stub))]
+#[cfg_attr(kani, kani::stub(crate::debt::LocalNode::with, crate::debt::verif_h::list_h::with_static))]
+#[cfg_attr(kani, kani::stub(crate::debt::Node::get, crate::debt::verif_h::list_h::node_get_unexpected))]
+#[cfg_attr(kani, kani::unwind(12))]
+pub(crate) fn api_rcu_full() {
+    api_rcu(1, 0, OCC_FULL);
+    vcover!("api_rcu_full_end");
+}
+// @harness name=rg_cas_script0 props=C05,C06 tier=quick flavour=nostd timeout=1800 fn=HybridStrategy::compare_and_swap+ArcSwapAny::compare_and_swap
+#[cfg_attr(kani, kani::proof)]
+#[cfg_attr(kani, kani::stub(crate::debt::Debt::pay_all, crate::debt::verif_h::pay_all_stub))]
+#[cfg_attr(kani, kani::stub(crate::debt::LocalNode::with, crate::debt::verif_h::list_h::with_static))]
+#[cfg_attr(kani, kani::stub(crate::debt::Node::get, crate::debt::verif_h::list_h::node_get_unexpected))]
+#[cfg_attr(kani, kani::unwind(12))]
+pub(crate) fn rg_cas_script0() {
+    rg_cas([0, 0], OCC_EMPTY);
+    vcover!("rg_cas_script0_end");
+}
+// @harness name=rg_cas_script1 props=C05,C06 tier=quick flavour=nostd timeout=1800 fn=HybridStrategy::compare_and_swap+ArcSwapAny::compare_and_swap
+#[cfg_attr(kani, kani::proof)]
+#[cfg_attr(kani, kani::stub(crate::debt::Debt::pay_all, crate::debt::verif_h::pay_all_stub))]
+#[cfg_attr(kani, kani::stub(crate::debt::LocalNode::with, crate::debt::verif_h::list_h::with_static))]
+#[cfg_attr(kani, kani::stub(crate::debt::Node::get, crate::debt::verif_h::list_h::node_get_unexpected))]
+#[cfg_attr(kani, kani::unwind(12))]
+pub(crate) fn rg_cas_script1() {
+    rg_cas([1, 0], OCC_EMPTY);
+    vcover!("rg_cas_script1_end");
+}
+// @harness name=rg_cas_script2 props=C05,C06 tier=quick flavour=nostd timeout=1800 fn=HybridStrategy::compare_and_swap+ArcSwapAny::compare_and_swap
+#[cfg_attr(kani, kani::proof)]
+#[cfg_attr(kani, kani::stub(crate::debt::Debt::pay_all, crate::debt::verif_h::pay_all_stub))]
+#[cfg_attr(kani, kani::stub(crate::debt::LocalNode::with, crate::debt::verif_h::list_h::with_static))]
+#[cfg_attr(kani, kani::stub(crate::debt::Node::get, crate::debt::verif_h::list_h::node_get_unexpected))]
+#[cfg_attr(kani, kani::unwind(12))]
+pub(crate) fn rg_cas_script2() {
+    rg_cas([2, 0], OCC_EMPTY);
+    vcover!("rg_cas_script2_end");
+}
+// @harness name=rg_cas_script3 props=C05,C06 tier=thorough flavour=nostd timeout=1800 fn=HybridStrategy::compare_and_swap+ArcSwapAny::compare_and_swap
+#[cfg_attr(kani, kani::proof)]
+#[cfg_attr(kani, kani::stub(crate::debt::Debt::pay_all, crate::debt::verif_h::pay_all_stub))]
+#[cfg_attr(kani, kani::stub(crate::debt::LocalNode::with, crate::debt::verif_h::list_h::with_static))]
+#[cfg_attr(kani, kani::stub(crate::debt::Node::get, crate::debt::verif_h::list_h::node_get_unexpected))]
+#[cfg_attr(kani, kani::unwind(12))]
+pub(crate) fn rg_cas_script3() {
+    rg_cas([1, 0], OCC_FULL);
+    vcover!("rg_cas_script3_end");
+}
+// @harness name=rg_cas_script4 props=C05,C06 tier=thorough flavour=nostd timeout=1800 fn=HybridStrategy::compare_and_swap+ArcSwapAny::compare_and_swap
+#[cfg_attr(kani, kani::proof)]
+#[cfg_attr(kani, kani::stub(crate::debt::Debt::pay_all, crate::debt::verif_h::pay_all_stub))]
+#[cfg_attr(kani, kani::stub(crate::debt::LocalNode::with, crate::debt::verif_h::list_h::with_static))]
+#[cfg_attr(kani, kani::stub(crate::debt::Node::get, crate::debt::verif_h::list_h::node_get_unexpected))]
+#[cfg_attr(kani, kani::unwind(12))]
+pub(crate) fn rg_cas_script4() {
+    rg_cas([2, 0], OCC_FULL);
+    vcover!("rg_cas_script4_end");
+}
+// @harness name=rg_rcu_script0 props=C06 tier=thorough flavour=nostd timeout=1800 fn=ArcSwapAny::rcu+ArcSwapAny::compare_and_swap
+#[cfg_attr(kani, kani::proof)]
+#[cfg_attr(kani, kani::stub(crate::debt::Debt::pay_all, crate::debt::verif_h::pay_all_stub))]
+#[cfg_attr(kani, kani::stub(crate::debt::LocalNode::with, crate::debt::verif_h::list_h::with_static))]
+#[cfg_attr(kani, kani::stub(crate::debt::Node::get, crate::debt::verif_h::list_h::node_get_unexpected))]
+#[cfg_attr(kani, kani::unwind(12))]
+pub(crate) fn rg_rcu_script0() {
+    rg_rcu([0, 0], OCC_EMPTY);
+    vcover!("rg_rcu_script0_end");
+}
+// @harness name=rg_rcu_script1 props=C06 tier=quick flavour=nostd timeout=1800 fn=ArcSwapAny::rcu+ArcSwapAny::compare_and_swap
+#[cfg_attr(kani, kani::proof)]
+#[cfg_attr(kani, kani::stub(crate::debt::Debt::pay_all, crate::debt::verif_h::pay_all_stub))]
+#[cfg_attr(kani, kani::stub(crate::debt::LocalNode::with, crate::debt::verif_h::list_h::with_static))]
+#[cfg_attr(kani, kani::stub(crate::debt::Node::get, crate::debt::verif_h::list_h::node_get_unexpected))]
+#[cfg_attr(kani, kani::unwind(12))]
+pub(crate) fn rg_rcu_script1() {
+    rg_rcu([2, 0], OCC_EMPTY);
+    vcover!("rg_rcu_script1_end");
+}
+// @harness name=rg_rcu_script2 props=C06 tier=quick flavour=nostd timeout=1800 fn=ArcSwapAny::rcu+ArcSwapAny::compare_and_swap
+#[cfg_attr(kani, kani::proof)]
+#[cfg_attr(kani, kani::stub(crate::debt::Debt::pay_all, crate::debt::verif_h::pay_all_stub))]
+#[cfg_attr(kani, kani::stub(crate::debt::LocalNode::with, crate::debt::verif_h::list_h::with_static))]
+#[cfg_attr(kani, kani::stub(crate::debt::Node::get, crate::debt::verif_h::list_h::node_get_unexpected))]
+#[cfg_attr(kani, kani::unwind(12))]
+pub(crate) fn rg_rcu_script2() {
+    rg_rcu([1, 0], OCC_EMPTY);
+    vcover!("rg_rcu_script2_end");
+}
+// @harness name=rg_rcu_script3 props=C06 tier=quick flavour=nostd timeout=1800 fn=ArcSwapAny::rcu+ArcSwapAny::compare_and_swap
+#[cfg_attr(kani, kani::proof)]
+#[cfg_attr(kani, kani::stub(crate::debt::Debt::pay_all, crate::debt::verif_h::pay_all_stub))]
+#[cfg_attr(kani, kani::stub(crate::debt::LocalNode::with, crate::debt::verif_h::list_h::with_static))]
+#[cfg_attr(kani, kani::stub(crate::debt::Node::get, crate::debt::verif_h::list_h::node_get_unexpected))]
+#[cfg_attr(kani, kani::unwind(12))]
+pub(crate) fn rg_rcu_script3() {
+    rg_rcu([1, 1], OCC_EMPTY);
+    vcover!("rg_rcu_script3_end");
+}
+// @harness name=rg_rcu_script4 props=C06 tier=thorough flavour=nostd timeout=1800 fn=ArcSwapAny::rcu+ArcSwapAny::compare_and_swap
+#[cfg_attr(kani, kani::proof)]
+#[cfg_attr(kani, kani::stub(crate::debt::Debt::pay_all, crate::debt::verif_h::pay_all_stub))]
+#[cfg_attr(kani, kani::stub(crate::debt::LocalNode::with, crate::debt::verif_h::list_h::with_static))]
+#[cfg_attr(kani, kani::stub(crate::debt::Node::get, crate::debt::verif_h::list_h::node_get_unexpected))]
+#[cfg_attr(kani, kani::unwind(12))]
+pub(crate) fn rg_rcu_script4() {
+    rg_rcu([1, 2], OCC_FULL);
+    vcover!("rg_rcu_script4_end");
 }
